@@ -119,6 +119,18 @@ CHECKS = {
         technique="Lean 4 proof (generated adjust + hand-modelled loops) + exact correspondence",
         design="6/C10",
     ),
+    "C11": dict(
+        text=("Theorem analyze_eq_textbook over the regenerated SampleRatio.analyze: for all counts, ratios (scalar or "
+              "mapping), methods and correction flags it reports the true counts and the exact binomial p-value "
+              "(binom, or auto below 1000) or the normal approximation with correction sign(d)*max(|d|-1/2,0) against "
+              "r/(1+r); corollaries counts_reported, method_switch, scalar_mapping_agree, swap_invariant_norm, and "
+              "swap_invariant_binom via the exact two-sided binomial p-value over any ordered field. Tie: translator + "
+              "exact correspondence (binomtest arguments recorded); float: real p-values vs the exact rational value."),
+        note=NOTE_COMMON + "scipy.stats.binomtest = exact two-sided binomial test is a hypothesis (sampled vs the Lean "
+             "rational value for n <= 399); norm.sf/sqrt are parameters.",
+        technique="Lean 4 proof over generated model + exact correspondence + exact-binomial oracle",
+        design="6/C11",
+    ),
 }
 
 PENDING_REASON = "check not implemented yet in this round (see DESIGN.md section 6 for the planned model and theorems)"
